@@ -4,6 +4,12 @@ package types
 
 // Access-only helpers for check C18: exact "is this mutex free" probes.
 
+import (
+	"fmt"
+	"sort"
+	"strings"
+)
+
 // VerifC18TryLock reports whether the vote set's mutex could be taken (and releases it again).
 func (voteSet *VoteSet) VerifC18TryLock() bool {
 	if voteSet == nil {
@@ -26,4 +32,37 @@ func (ps *PartSet) VerifC18TryLock() bool {
 	}
 	ps.mtx.Unlock()
 	return true
+}
+
+// VerifC18Claims is a read-only digest of the bookkeeping a peer can influence without a valid
+// signature: the block ids peers claimed a +2/3 majority for and the per-block tallies created for
+// them. Requires the mutex to be free.
+func (voteSet *VoteSet) VerifC18Claims() string {
+	if voteSet == nil {
+		return ""
+	}
+	voteSet.mtx.Lock()
+	defer voteSet.mtx.Unlock()
+	var l []string
+	for p, id := range voteSet.peerMaj23s {
+		l = append(l, fmt.Sprintf("m:%s=%x/%d", string(p), id.Hash[:4], id.PartsHeader.Total))
+	}
+	for k, bv := range voteSet.votesByBlock {
+		if len(k) > 12 {
+			k = k[:12]
+		}
+		l = append(l, fmt.Sprintf("b:%s=%v/%d", k, bv.peerMaj23, bv.sum))
+	}
+	sort.Strings(l)
+	return strings.Join(l, ",")
+}
+
+// VerifC18ClaimCount is the cheap version of the same (number of entries).
+func (voteSet *VoteSet) VerifC18ClaimCount() int {
+	if voteSet == nil {
+		return 0
+	}
+	voteSet.mtx.Lock()
+	defer voteSet.mtx.Unlock()
+	return len(voteSet.peerMaj23s)*1000 + len(voteSet.votesByBlock)
 }
